@@ -1072,10 +1072,24 @@ func runC14(c *Ctx) error {
 			validM = append(validM, bm)
 			validB = append(validB, bb)
 		}
+		if i < c.N(30, 400) {
+			c14EntryPoints(c, caseNo, circ, kind)
+		}
 		if i < 2 {
 			c.Sample(map[string]string{"circuit": circuitText(circ), "mpclc": hex.EncodeToString(bm), "bristol": string(bb)})
 		}
 	}
+	// entry points: circuits whose text is longer than one 4096-byte buffer, reader-side
+	// suffix dispatch, Params.CircOut through a real compile
+	for i := 0; i < c.N(2, 10); i++ {
+		r := c.rng.Fork()
+		big := GenCircuit(r, GenOpts{MinIn: 4, MaxIn: 10, MinGates: 450, MaxGates: 900, MaxOut: 8})
+		caseNo++
+		c14EntryPoints(c, caseNo, big, "gencircuit-large")
+	}
+	c14EntryFiles(c, validB[0])
+	caseNo++
+	c14EntryCompile(c, caseNo)
 	nBig := c.N(6, 60)
 	for i := 0; i < nBig; i++ {
 		r := c.rng.Fork()
